@@ -117,6 +117,15 @@ class Ctx:
                 names.append({"name": t, "file": f,
                               "assumptions": blocks[i] if i < len(blocks) else ["<not printed>"]})
         self.theorems = names
+        # the property theorems that must be present and checked: a Props file that lost a theorem is a broken proof
+        try:
+            required = json.load(open(os.path.join(COQ, "Props", "REQUIRED.json"))).get(self.prop, [])
+        except (OSError, ValueError):
+            raise Fail("coq/Props/REQUIRED.json missing or unreadable")
+        have = {t["name"] for t in names if t["assumptions"] != ["<not printed>"]}
+        missing = [t for t in required if t not in have]
+        if missing or not required:
+            raise Fail("property theorems no longer stated/checked in Props/%s.v: %s" % (self.prop, ", ".join(missing) or "(none registered)"))
         if self.tier == "thorough" and not self.replay and os.environ.get("VERIF_SKIP_COQCHK") != "1":
             # independent re-check of the compiled property file and everything it depends on, with the axiom summary
             mod = "Gopar.Props.%s" % self.prop
